@@ -502,3 +502,13 @@ func mcGrammarEntries(gs []*SynGrammar) []map[string]any {
 	}
 	return out
 }
+
+// kfSyn: grammars that exhibit known findings; never part of the regular pools.
+func kfSyn() []*SynGrammar {
+	return []*SynGrammar{
+		// F13: a string literal whose content is the word empty is compiled as the empty alternative
+		synG([]string{"S"}, []string{"\"empty\"", "a"}, P(0, T(0), T(1))),
+		// F13: ... and the content error as the recovery symbol
+		synG([]string{"S"}, []string{"\"error\"", "a"}, P(0, T(0), T(1)), P(0, T(1))),
+	}
+}
